@@ -11,6 +11,7 @@ mod c07;
 mod c17;
 mod c18;
 mod c18_interp;
+mod c22;
 mod engine;
 mod oracle;
 mod rng;
@@ -113,6 +114,7 @@ fn cmd_run(args: &[String]) -> i32 {
         "C07" => engine::run_batch(&c07::C07, &cfg),
         "C17" => engine::run_batch(&c17::C17, &cfg),
         "C18" => engine::run_batch(&c18::C18, &cfg),
+        "C22" => engine::run_batch(&c22::C22, &cfg),
         _ => {
             eprintln!("unknown property {id}");
             2
@@ -142,6 +144,7 @@ fn cmd_replay(args: &[String]) -> i32 {
         "C07" => engine::replay_file(&c07::C07, path, &trace, quiet),
         "C17" => engine::replay_file(&c17::C17, path, &trace, quiet),
         "C18" => engine::replay_file(&c18::C18, path, &trace, quiet),
+        "C22" => engine::replay_file(&c22::C22, path, &trace, quiet),
         other => {
             println!("HARNESS-ERROR unknown property {other:?} in {path}");
             2
